@@ -48,6 +48,23 @@ def history_stream(tier, rng, removal, classes=(0, 1), exhaustive_len=None, n_ra
         if d == 1:
             for h in gen.exhaustive_reciprocal(3, tmax=1 if tier == "quick" else 2):
                 yield hist_case(d, removal, h, src="exhR")
+    # one bulk call with a vanishing time (every pair gets the same span), then one of its pairs is prolonged or re-added:
+    # the other pairs of the bunch must not move (spans of one pair never affect another pair)
+    for i in range(24 if tier == "quick" else 400):
+        d = classes[i % len(classes)]
+        k = rng.choice([2, 3, 4])
+        prs = [[2 * j + 1, 2 * j + 2] for j in range(k)]
+        if i % 3 == 0:
+            prs[-1] = [prs[0][1], prs[0][0]]        # the reverse orientation of the first pair
+        t0 = rng.randint(-2, 4); e0 = t0 + rng.choice([1, 2, 4])
+        kind = ("addfrom", "fpath", "fstar", "fcycle")[i % 4]
+        first = ["addfrom", prs, t0, e0] if kind == "addfrom" else [kind, [1, 2, 3, 4][:k + 1], t0, e0]
+        u, v = (prs[i % k] if kind == "addfrom" else (1, 2))
+        t1 = rng.choice([e0 - 1, e0, e0, t0])       # overlapping, adjacent, same start
+        h = [first, ["add", u, v, t1, rng.choice([None, t1 + 2, e0 + 3])]]
+        if i % 2:
+            h.append(["add", u, v, e0 + 6, None])
+        yield hist_case(d, removal, h, src="bulk-then-extend")
     n = n_random if n_random is not None else (3000 if tier == "quick" else 40000)
     for i in range(n):
         d = rng.choice(classes)
@@ -128,6 +145,14 @@ class C03:
                 L.append("toundir 0 6 1")
             for s in ([1, 2, 3, 4, 5] + ([6] if case["cls"] else [])):
                 L += ["dump %d" % s, "pres %d %d %d" % (s, lo, hi), "tls %d" % s]
+            # the same history on a graph created with edge_removal=False: what the library derives from it (a slice, a
+            # conversion) is again a graph it produced, with canonical timelines that equal its own presence
+            L.append(gen.header(7, case["cls"], 0))
+            L += [gen.op_line(7, op) for op in case["ops"]]
+            L.append("slice 7 8 %d %d" % (a, b))
+            L.append("toundir 7 9 0" if case["cls"] else "todir 7 9")
+            for s in (8, 9):
+                L += ["dump %d" % s, "pres %d %d %d" % (s, lo, hi), "tls %d" % s]
         return L
 
     @staticmethod
@@ -151,6 +176,16 @@ class C03:
                     fails.append(F("C03.derived_raised", where=nm, got=ok if ok != "ok" else d))
                     continue
                 fails += oracles.c03(bool(d["cls"]), d, p, lo, hi, v, nm)
+            # derived from the accumulative twin: header + ops + the two constructors, then three lines per derived graph
+            j += 1 + n
+            ctor = outs[j:j + 2]; j += 2
+            for nm, ok in zip(("time_slice of an accumulative graph", "conversion of an accumulative graph"), ctor):
+                d, p, v = outs[j], outs[j + 1], outs[j + 2]; j += 3
+                if ok != "ok" or oracles.is_err(d):
+                    if ok not in ("E:VE",):          # an invalid window is rejected in every mode
+                        fails.append(F("C03.derived_raised", where=nm, got=ok if ok != "ok" else d))
+                    continue
+                fails += oracles.c03(bool(d["cls"]), d, p, lo, hi, v, nm)      # whatever mode the derived graph is in
         return fails
 
     @staticmethod
